@@ -3,7 +3,7 @@
 using namespace vf;
 
 namespace {
-enum Shape { FREE = 0, BATCH = 1, READER_HEAVY = 2, ORDERING = 3, WRITER_FREE = 4, RENDEZVOUS = 5, TWO_RESOURCES = 6 };
+enum Shape { FREE = 0, BATCH = 1, READER_HEAVY = 2, ORDERING = 3, WRITER_FREE = 4, RENDEZVOUS = 5, TWO_RESOURCES = 6, LONG_BUSY = 7 };
 
 // op: k = 0 read | 1 write, a = thread, b = bit0 guard, bits1-2 yields inside, bit3 nested read (writer-free only), c = flags of the nested op
 rc::Gen<std::vector<Op>> ops(int wr, int ww, int maxOps) {
@@ -29,18 +29,30 @@ rc::Gen<Case> shapeCase(const std::string &prop, int shape, int thLo, int thHi, 
                                          {1, genCase(prop, genHeader({{shape, shape}, {thLo, thHi}, {1, 1}}), o, genSchedPCT())}});
 }
 
+// LONG_BUSY: 3-5 threads, each repeating its short op pattern `per` times inside one never-ending busy period (h[3] = per);
+// quick: 10-80 rounds; thorough: mostly 50-600, occasionally 22 000+ (more than 2^16 tickets in one busy period)
+rc::Gen<Case> longCase(const std::string &prop, Tier t) {
+    auto per = t == THOROUGH ? rc::gen::weightedOneOf<int>({{30, rng(50, 600)}, {1, rng(22000, 24000)}}) : rng(10, 80);
+    auto h = rc::gen::map(rc::gen::tuple(rng(3, 5), per), [](const std::tuple<int, int> &x) { return std::vector<int>{LONG_BUSY, std::get<0>(x), 0, std::get<1>(x)}; });
+    return genCase(prop, h, ops(2, 2, 8), rc::gen::just(std::vector<uint8_t>{}));
+}
+// many threads: a writer holds until 8-12 readers are parked behind it in ONE batch, then they rendezvous inside
+rc::Gen<Case> bigBatch(const std::string &prop) {
+    return genCase(prop, genHeader({{RENDEZVOUS, RENDEZVOUS}, {9, 13}, {0, 0}}), ops(3, 1, 6), genSched(60));
+}
+
 Register r01("C01", [](Tier t) {
     int T = t == THOROUGH ? 8 : 5, n = t == THOROUGH ? 24 : 12, sl = t == THOROUGH ? 200 : 100;
     return rc::gen::weightedOneOf<Case>({{4, shapeCase("C01", FREE, 2, T, ops(3, 2, n), sl)},
                                          {4, shapeCase("C01", BATCH, 4, T, batchOps(n), sl)},
                                          {2, shapeCase("C01", READER_HEAVY, 3, T, ops(5, 1, n), sl)},
-                                         {1, shapeCase("C01", TWO_RESOURCES, 3, T, ops(3, 2, n), sl)}});
+                                         {1, shapeCase("C01", TWO_RESOURCES, 3, T, ops(3, 2, n), sl)}, {1, longCase("C01", t)}});
 });
 Register r02("C02", [](Tier t) {
     int T = t == THOROUGH ? 8 : 5, n = t == THOROUGH ? 24 : 12, sl = t == THOROUGH ? 200 : 100;
     return rc::gen::weightedOneOf<Case>({{4, shapeCase("C02", FREE, 2, T, ops(3, 2, n), sl)},
                                          {4, shapeCase("C02", BATCH, 4, T, batchOps(n), sl)},
-                                         {2, shapeCase("C02", READER_HEAVY, 3, T, ops(5, 1, n), sl)}});
+                                         {2, shapeCase("C02", READER_HEAVY, 3, T, ops(5, 1, n), sl)}, {1, longCase("C02", t)}, {1, bigBatch("C02")}});
 });
 Register r03("C03", [](Tier t) {
     int T = t == THOROUGH ? 8 : 6, n = t == THOROUGH ? 24 : 12, sl = t == THOROUGH ? 200 : 100;
@@ -54,7 +66,7 @@ Register r12("C12", [](Tier t) {
     return rc::gen::weightedOneOf<Case>({{4, shapeCase("C12", WRITER_FREE, 2, T, ops(1, 0, n), sl)},
                                          {3, shapeCase("C12", FREE, 2, T, ops(4, 1, n), sl)},
                                          {3, shapeCase("C12", RENDEZVOUS, 3, T, ops(3, 1, n), sl)},
-                                         {1, shapeCase("C12", TWO_RESOURCES, 3, T, ops(4, 1, n), sl)}});
+                                         {1, shapeCase("C12", TWO_RESOURCES, 3, T, ops(4, 1, n), sl)}, {1, longCase("C12", t)}, {1, bigBatch("C12")}});
 });
 
 // ---- small-scope program spaces (systematic enumeration of schedules, thorough tier)
